@@ -800,3 +800,87 @@ Proof.
   - unfold plan_ok. cbn. repeat constructor; cbn; auto.
   - cbn. lia.
 Qed.
+
+(* ------------------------------------------------------------------------- *)
+(* renewal: with no further fault, a chunk read completes from ANY reservation *)
+(* state (valid, cancelled, stale id) - renewing once, with the store's own     *)
+(* reservation command (C11_same_store)                                        *)
+(* ------------------------------------------------------------------------- *)
+Definition get_answer (s : sdr_state) (st : store) (resv rid : N) (off len : Z) : list N :=
+  if negb (valid_of st s && (w16 resv =? res_of st s)) then [CC_RES_CANCELED]
+  else match lookup (recs_of st s) (w16 rid) with
+       | None => [0xCB]
+       | Some (rec, nx) => if s_limit s <? byteZ len then [CC_CANT_RET_NUM_REQ_BYTES]
+                           else 0 :: le_bytes 2 nx ++ slice (byteZ off) (byteZ len) rec
+       end.
+
+Lemma dev_get_exact s st resv rid off len : s_plan s = [] ->
+  sdr_dev s (get_req st resv rid off len) = (s, RBytes (get_answer s st resv rid off len)).
+Proof.
+  intros P. unfold sdr_dev. rewrite P. unfold sdr_answer, get_answer. cbn [get_req q_netfn q_cmd q_data].
+  rewrite store_of_own.
+  assert (st_get_cmd st =? RESERVE_CMD = false) as Eg by (destruct st; reflexivity).
+  rewrite Eg, N.eqb_refl. cbn [le_bytes app]. fold (w16 resv). fold (w16 rid).
+  destruct (negb _); [reflexivity|]. destruct (lookup _ _) as [[rec nx]|]; [|reflexivity].
+  destruct (s_limit s <? byteZ len); reflexivity.
+Qed.
+Lemma dev_reserve_exact s st : s_plan s = [] ->
+  sdr_dev s (reserve_req st) = (do_reserve st s, RBytes (0 :: le_bytes 2 (res_of st (do_reserve st s)))).
+Proof.
+  intros P. unfold sdr_dev. rewrite P. unfold sdr_answer. cbn [reserve_req q_netfn q_cmd q_data].
+  rewrite store_of_own, N.eqb_refl. reflexivity.
+Qed.
+
+Lemma chunk_unfold n st rst resv rid off len :
+  chunk_prog (S n) st rst resv rid off len =
+  (dop d <- send_message (get_req st resv rid off len);
+    match dec_get_rsp d with
+    | Err e => Raise e
+    | Ok (cc, next, data) =>
+      if cc =? 0 then Ret (next, data)
+      else if cc =? CC_RES_CANCELED then
+        Sleep 1000 (dop nr <- reserve rst; chunk_prog n st rst nr rid off len)
+      else if cc =? CC_TIMEOUT then Sleep 100 (chunk_prog n st rst resv rid off len)
+      else if cc =? CC_RESP_COULD_NOT_BE_PRV then Sleep (100 * N.of_nat (S n)) (chunk_prog n st rst resv rid off len)
+      else Raise (CCError cc)
+    end).
+Proof. reflexivity. Qed.
+
+Lemma renewal_completes st resv rid off len s tr rec nx :
+  s_plan s = [] -> lookup (recs_of st s) (w16 rid) = Some (rec, nx) -> byteZ len <= s_limit s ->
+  exists s' tr', run (get_chunk st resv rid off len) sdr_dev s tr =
+                   (Ok (w16 nx, slice (byteZ off) (byteZ len) rec), s', tr') /\
+                 s_plan s' = [] /\ same_content s s' /\ valid_of st s' = true.
+Proof.
+  intros P L B.
+  assert (forall s0 r0 tr0 n, s_plan s0 = [] -> recs_of st s0 = recs_of st s -> s_limit s0 = s_limit s ->
+            valid_of st s0 = true -> w16 r0 = res_of st s0 ->
+            run (chunk_prog (S n) st st r0 rid off len) sdr_dev s0 tr0 =
+            (Ok (w16 nx, slice (byteZ off) (byteZ len) rec), s0, tr0 ++ [(get_req st r0 rid off len, RBytes (get_answer s0 st r0 rid off len))])) as Good.
+  { intros s0 r0 tr0 n P0 R0 L0 V0 E0. rewrite chunk_unfold. rewrite run_bind. unfold send_message. cbn [send_msg_loop run].
+    rewrite (dev_get_exact _ _ _ _ _ _ P0). cbn [run].
+    unfold get_answer. rewrite V0, E0, N.eqb_refl, R0, L, L0. cbn [andb negb].
+    assert (s_limit s <? byteZ len = false) as -> by lia.
+    rewrite dec_get_full. cbn. reflexivity. }
+  destruct (valid_of st s && (w16 resv =? res_of st s)) eqn:V.
+  - apply andb_prop in V as [V1 V2]. apply N.eqb_eq in V2.
+    eexists s, _. split; [unfold get_chunk; apply Good; auto|]. split; [exact P|]. split; [unfold same_content; tauto | exact V1].
+  - unfold get_chunk. rewrite (chunk_unfold 3). rewrite run_bind. unfold send_message at 1. cbn [send_msg_loop run].
+    rewrite (dev_get_exact _ _ _ _ _ _ P). cbn [run]. unfold get_answer at 1. rewrite V. cbn [negb].
+    cbn [dec_get_rsp]. cbn [N.eqb CC_RES_CANCELED Pos.eqb]. cbn [run]. rewrite run_bind.
+    unfold reserve. rewrite run_bind. unfold send_message at 1. cbn [send_msg_loop run].
+    rewrite (dev_reserve_exact _ _ P). cbn [run].
+    set (s2 := do_reserve st s).
+    assert (res_of st s2 < 65536) as Hr by (unfold s2; destruct st; cbn; unfold new_res; lia).
+    assert (dec_reserve_rsp (0 :: le_bytes 2 (res_of st s2)) = Ok (0, w16 (res_of st s2))) as -> by reflexivity.
+    cbn [N.eqb run].
+    eexists s2, _. split.
+    + apply Good.
+      * unfold s2; destruct st; cbn; exact P.
+      * unfold s2; destruct st; reflexivity.
+      * unfold s2; destruct st; reflexivity.
+      * unfold s2; destruct st; reflexivity.
+      * rewrite !w16_small; auto. rewrite w16_small; auto.
+    + split; [unfold s2; destruct st; cbn; exact P|]. split; [unfold same_content, s2; destruct st; cbn; tauto|].
+      unfold s2; destruct st; reflexivity.
+Qed.
